@@ -600,6 +600,8 @@ pub enum Op {
     FPush(D), FPop, FTruncate(usize), FClear, Item(usize, Box<Op>), Assign(D),
     /// write the image of sized field `.1` (of variant `.0` of an unsized enum; 0 for a struct) through the mutable accessor
     SetField(usize, usize, Vec<u8>),
+    /// an operation on the unsized last field of a struct (`msg.tail.push(..)`)
+    Last(Box<Op>),
 }
 impl Op {
     pub fn text(&self) -> String {
@@ -612,6 +614,7 @@ impl Op {
             Op::FPush(d) => format!("fpush {}", d.text()), Op::FPop => "fpop".into(), Op::FTruncate(n) => format!("ftrunc {}", n), Op::FClear => "fclear".into(),
             Op::Item(i, o) => format!("item {} {}", i, o.text()), Op::Assign(d) => format!("assign {}", d.text()),
             Op::SetField(v, i, x) => format!("setfield {} {} {}", v, i, hex(x)),
+            Op::Last(o) => format!("last {}", o.text()),
         }
     }
     pub fn parse(s: &str) -> Op {
@@ -625,6 +628,7 @@ impl Op {
             "fpush" => Op::FPush(parse_ds(&f[1..].join(" ")).remove(0)), "fpop" => Op::FPop, "ftrunc" => Op::FTruncate(f[1].parse().unwrap()), "fclear" => Op::FClear,
             "item" => Op::Item(f[1].parse().unwrap(), Box::new(Op::parse(&f[2..].join(" ")))), "assign" => Op::Assign(parse_ds(&f[1..].join(" ")).remove(0)),
             "setfield" => Op::SetField(f[1].parse().unwrap(), f[2].parse().unwrap(), unhex(f[3])),
+            "last" => Op::Last(Box::new(Op::parse(&f[1..].join(" ")))),
             h => panic!("bad op {h}"),
         }
     }
